@@ -1,3 +1,106 @@
-(* C08/Witness.v — non-vacuity examples and refutation witnesses. *)
-From Verif Require Import Common.Base C08.Model Generated.OtlpProto C08.Proofs.
+(* C08/Witness.v — non-vacuity of the hypotheses of the theorems in Properties.v, and the
+   refutation witnesses evaluated on the real (regenerated) schema and decoder table. *)
+From Verif Require Import Common.Base C08.Model C08.Json Generated.OtlpProto Generated.C08JsonDecoders C08.Proofs.
+From Coq Require Import Strings.String.
 Local Open Scope N_scope.
+
+(* a non-trivial canonical value of the real schema: an AnyValue holding a kvlist with a nested
+   array, a negative int, a NaN and bytes *)
+Definition any_str (s : bytes) : pv := VMsg [VSome (VBytes s); VNone; VNone; VNone; VNone; VNone; VNone].
+Definition any_int (n : N) : pv := VMsg [VNone; VNone; VSome (VInt n); VNone; VNone; VNone; VNone].
+Definition any_dbl (n : N) : pv := VMsg [VNone; VNone; VNone; VSome (VInt n); VNone; VNone; VNone].
+Definition any_bytes (b : bytes) : pv := VMsg [VNone; VNone; VNone; VNone; VNone; VNone; VSome (VBytes b)].
+Definition any_arr (l : list pv) : pv := VMsg [VNone; VNone; VNone; VNone; VSome (VMsg [VRep l]); VNone; VNone].
+Definition kv (k : bytes) (v : pv) : pv := VMsg [VBytes k; v].
+Definition any_kvl (l : list pv) : pv := VMsg [VNone; VNone; VNone; VNone; VNone; VSome (VMsg [VRep l]); VNone].
+
+Definition sample : pv :=
+  any_kvl [kv [97] (any_arr [any_int (two64 - 5); any_dbl nan_bits; any_dbl two63; any_bytes []; any_str [104; 105]]);
+           kv [98] (any_bytes [0; 255; 7])].
+
+Example sample_canonical : canonical OtlpSchema m_common_v1_AnyValue sample = true.
+Proof. vm_compute. reflexivity. Qed.
+Example sample_size_small : size OtlpSchema m_common_v1_AnyValue sample < two64.
+Proof. vm_compute. reflexivity. Qed.
+Example sample_nontrivial : blen (encode OtlpSchema m_common_v1_AnyValue sample) = 68.
+Proof. vm_compute. reflexivity. Qed.
+Example sample_roundtrip : decode OtlpSchema m_common_v1_AnyValue (encode OtlpSchema m_common_v1_AnyValue sample) = Some sample.
+Proof. vm_compute. reflexivity. Qed.
+(* the JSON hypotheses are satisfiable on the real decoder table *)
+Example sample_jok : jok OtlpSchema OtlpJsonDecoders m_common_v1_AnyValue sample = true.
+Proof. vm_compute. reflexivity. Qed.
+Example sample_migrate : migrate OtlpSchema m_common_v1_AnyValue sample = sample.
+Proof. vm_compute. reflexivity. Qed.
+Example sample_json_roundtrip :
+  of_json OtlpSchema OtlpJsonDecoders OtlpEnums m_common_v1_AnyValue (to_json OtlpSchema m_common_v1_AnyValue sample) = Some sample.
+Proof. vm_compute. reflexivity. Qed.
+
+(* a whole logs request with a resource, a scope and one record *)
+Definition logs_sample : pv :=
+  with_field m_collector_logs_v1_ExportLogsServiceRequest 1
+    (VRep [with_field m_logs_v1_ResourceLogs 2
+             (VRep [with_field m_logs_v1_ScopeLogs 2
+                      (VRep [with_field m_logs_v1_LogRecord 1 (VInt 1700000000000000000)])])]).
+Example logs_sample_ok :
+  canonical OtlpSchema m_collector_logs_v1_ExportLogsServiceRequest logs_sample = true
+  /\ jok OtlpSchema OtlpJsonDecoders m_collector_logs_v1_ExportLogsServiceRequest logs_sample = true
+  /\ migrate OtlpSchema m_collector_logs_v1_ExportLogsServiceRequest logs_sample = logs_sample
+  /\ of_json OtlpSchema OtlpJsonDecoders OtlpEnums m_collector_logs_v1_ExportLogsServiceRequest
+             (to_json OtlpSchema m_collector_logs_v1_ExportLogsServiceRequest logs_sample) = Some logs_sample.
+Proof. repeat split; vm_compute; reflexivity. Qed.
+
+(* hypotheses of the bit-level lemmas *)
+Example varint_hyp : two64 - 1 < two64. Proof. reflexivity. Qed.
+Example varint_10_bytes : varint (two64 - 1) = [255; 255; 255; 255; 255; 255; 255; 255; 255; 1].
+Proof. vm_compute. reflexivity. Qed.
+Example zigzag_hyp : zig32 (two32 - 1) = 1 /\ unzig32 1 = two32 - 1.
+Proof. split; vm_compute; reflexivity. Qed.
+Example tag_hyp : fnum_ok (mkF 1000 TStr CRep EmptyString EmptyString) = true /\ varint (tagv (mkF 1000 TStr CRep EmptyString EmptyString) 2) = [194; 62].
+Proof. split; vm_compute; reflexivity. Qed.
+
+(* refutation witnesses: the protobuf round trip is not the identity on -0.0 in a singular double
+   and on a Bytes value holding nil; both come back as the normalised value *)
+Example negzero_roundtrip :
+  decode OtlpSchema m_metrics_v1_SummaryDataPoint_ValueAtQuantile
+         (encode OtlpSchema m_metrics_v1_SummaryDataPoint_ValueAtQuantile negzero_witness)
+  = Some (VMsg [VInt 0; VInt 0]).
+Proof. vm_compute. reflexivity. Qed.
+Example emptybytes_roundtrip :
+  decode OtlpSchema m_common_v1_AnyValue (encode OtlpSchema m_common_v1_AnyValue emptybytes_witness)
+  = Some (VMsg [VNone; VNone; VNone; VNone; VNone; VNone; VNone]).
+Proof. vm_compute. reflexivity. Qed.
+(* ... and JSON turns the same value into an EMPTY bytes value, so JSON and protobuf disagree *)
+Example emptybytes_json :
+  of_json OtlpSchema OtlpJsonDecoders OtlpEnums m_common_v1_AnyValue (to_json OtlpSchema m_common_v1_AnyValue emptybytes_witness)
+  = Some (any_bytes []).
+Proof. vm_compute. reflexivity. Qed.
+
+(* Profile.original_payload survives JSON (repaired: it used to come back as its base64 text) *)
+Example payload_json :
+  of_json OtlpSchema OtlpJsonDecoders OtlpEnums m_profiles_v1development_Profile
+          (to_json OtlpSchema m_profiles_v1development_Profile payload_witness)
+  = Some payload_witness.
+Proof. vm_compute. reflexivity. Qed.
+(* the model of a raw (ReadStringAsSlice) bytes reader, on a one-entry table: the base64 text is stored *)
+Example raw_reader_model :
+  oj_one [] (fun _ _ _ => None) (mkJ 0 EmptyString 1 false true false true) 0 (mkF 1 TBytes COpt EmptyString EmptyString) None (JB64 [1; 2])
+  = Some (VBytes [65; 81; 73; 61]).
+Proof. vm_compute. reflexivity. Qed.
+
+(* a NaN with a payload is outside jok: JSON can only say "NaN" *)
+Example nan_payload_not_jok :
+  jok OtlpSchema OtlpJsonDecoders m_common_v1_AnyValue (any_dbl (nan_bits + 1)) = false
+  /\ of_json OtlpSchema OtlpJsonDecoders OtlpEnums m_common_v1_AnyValue
+             (to_json OtlpSchema m_common_v1_AnyValue (any_dbl (nan_bits + 1))) = Some (any_dbl nan_bits).
+Proof. split; vm_compute; reflexivity. Qed.
+
+(* decoding is total and order-insensitive: a reordered, duplicated encoding with an unknown field
+   and an unknown group decodes (last scalar wins) *)
+Example reordered_decode :
+  decode OtlpSchema m_metrics_v1_SummaryDataPoint_ValueAtQuantile
+         (hex "11000000000000f03f7a036162637b08017c09000000000000004011000000000000f0bf"%string)
+  = Some (VMsg [VInt 4611686018427387904; VInt 13830554455654793216]).
+Proof. vm_compute. reflexivity. Qed.
+Example truncated_rejected :
+  decode OtlpSchema m_metrics_v1_SummaryDataPoint_ValueAtQuantile (hex "1100000000"%string) = None.
+Proof. vm_compute. reflexivity. Qed.
